@@ -156,6 +156,16 @@ def materialize(struct, as_kind="poly"):
             return p
         return numpoly.ndpoly.from_attributes(p.exponents[:, ::-1], p.coefficients, p.names[::-1], dtype=p.dtype,
                                               retain_coefficients=True, retain_names=True)
+    if as_kind == "poly_rot":
+        # the same polynomial with its indeterminates declared in a rotated order (q1, q2, q0): unlike a reversal, a
+        # rotation of three or more names differs from its inverse permutation
+        p = struct_to_poly(struct)
+        if len(p.names) < 2:
+            return p
+        k = len(p.names)
+        perm = [(j + 1) % k for j in range(k)]
+        return numpoly.ndpoly.from_attributes(p.exponents[:, perm], p.coefficients, tuple(p.names[j] for j in perm),
+                                              dtype=p.dtype, retain_coefficients=True, retain_names=True)
     dtype = numpy.dtype(struct["dtype"])
     col = [exact_to_py(coef_from_json(c), dtype) for c in struct["terms"][0][1]]
     arr = numpy.array(col, dtype=dtype).reshape(tuple(struct["shape"]))
